@@ -240,6 +240,8 @@ class Engine:
         extra_env = {}
         if c.get("misc_env") is not None:
             extra_env["PDSH_MISC_MODULES"] = c["misc_env"]
+        if c.get("misc_opt_first") is not None:
+            args += ["-M", c["misc_opt_first"]]      # an earlier -M: the LAST one counts
         if c.get("misc_opt") is not None:
             args += ["-M", c["misc_opt"]]
         args += list(extra) + [final]
@@ -407,6 +409,8 @@ def gen_case(rng, eng, shape=None):
             c["misc_env"] = mk()
         else:
             c["misc_env"], c["misc_opt"] = mk(), mk()
+            if rng.random() < 0.4:
+                c["misc_opt_first"] = mk()
         # an empty -M argument is an empty string: misc_modules = "" (strlen 0: ignored)
         c["misc"] = c["misc_opt"] if c["misc_opt"] is not None else c["misc_env"]
     return c
@@ -518,6 +522,20 @@ def pinned_classes(eng, mk):
             c["misc"] = c["misc_opt"] if c["misc_opt"] is not None else c["misc_env"]
             c["_all_letters"] = how == "opt"
             c["_no_letters"] = how != "opt"
+            c["pinned"] = "-M"
+            out.append(c)
+    # -M REPLACES PDSH_MISC_MODULES and an earlier -M (it is not added to them): the environment / the earlier option
+    # names a module that CONFLICTS with the one the last -M asks for (shared letter, failing initialiser, duplicate)
+    for files, a, b in ((["m01.so", "m02.so"], "alpha", "beta"), (["m02.so", "m01.so", "m22.so"], "tau", "alpha"),
+                        (["m03.so", "m04.so", "m05.so"], "gamma", "delta"), (["m14.so", "m13.so"], "xi", "nu"),
+                        (["m28.so", "m06.so", "m29.so"], "zeta", "psi"), (["m33.so", "m27.so", "m08.so", "m09.so"], "iota", "aaa")):
+        for env, first, opt in ((b, None, a), (a, None, b), (b + "," + a, None, a), (b, None, ""), ("nosuch", None, a),
+                                (None, b, a), (None, a, b), (b, a, a), (a, b, "nosuch"), (b, None, None)):
+            c = mk(list(files))
+            c["misc_env"], c["misc_opt_first"], c["misc_opt"] = env, first, opt
+            c["misc"] = opt if opt is not None else env
+            c["_all_letters"] = env == b and first is None and opt == a
+            c["_no_letters"] = not c["_all_letters"]
             c["pinned"] = "-M"
             out.append(c)
     # permissions
@@ -747,7 +765,7 @@ def run(ctx):
             check_cases(ctx, eng, cases, cov, dist, distinct, rng)
         else:
             cases = [(c, "planned") for c in planned_cases(eng)]
-            n = 1800 if ctx.quick() else 20000
+            n = 1500 if ctx.quick() else 20000
             cases += [(gen_case(rng, eng), "random") for _ in range(n)]
             if not ctx.quick():
                 cases += [(c, "matrix") for c in perm_matrix(eng)]
